@@ -16,6 +16,12 @@ try:
     r = subprocess.run(["git", "-C", wt, "apply", "--whitespace=nowarn", patch], capture_output=True)
     if r.returncode != 0:
         r = subprocess.run(["git", "-C", wt, "apply", "--3way", "--whitespace=nowarn", patch], capture_output=True)
+    alt = os.path.join(os.path.dirname(patch), "patch.current.diff")
+    if os.path.basename(patch) == "patch.diff" and os.path.exists(alt):
+        # the seeded change as ported to the current (since repaired) tree: same mutation, new context
+        subprocess.run(["git", "-C", wt, "checkout", "-q", "."], capture_output=True)
+        r = subprocess.run(["git", "-C", wt, "apply", "--whitespace=nowarn", alt], capture_output=True)
+        print("(using patch.current.diff)")
     if r.returncode != 0:
         print("PATCH DOES NOT APPLY:", r.stderr.decode()[-800:]); sys.exit(3)
     env = dict(os.environ, ASL_REPO=wt, VERIF_SEED=seed)
